@@ -308,6 +308,7 @@ Definition changed_of (cm : cmp) (old : option Z) (v : Z) : bool :=
   match cm with
   | CAlways => true
   | CNe => match old with Some o => negb (Z.eqb o v) | None => true end
+  | CPar => match old with Some o => negb (Bool.eqb (Z.even o) (Z.even v)) | None => true end
   end.
 
 Lemma DirtyAt_not_needs_cur s k : DirtyAt p s k -> ~ needs_cur p s k.
@@ -395,7 +396,7 @@ Proof.
        (st (getn s' k) = Dirty -> st (getn se k) = Dirty \/ (ch = true /\ In k (subs (getn se i)) /\ obs_is c k = false)) /\
        (edirty (getn s' k) = true -> edirty (getn se k) = true \/ (ch = true /\ In k (subs (getn se i)) /\ obs_is c k = false))) /\
     (ch = true -> forall k, In k (subs (getn se i)) -> obs_is c k = false -> DirtyAt p s' k) /\
-    (ch = false -> cur se i = v)).
+    (ch = false -> eqv p i (cur se i) v)).
   { unfold s'. destruct ch eqn:Ech.
     - (* subscribers are marked *)
       set (sN := add_cause i sM).
@@ -499,10 +500,13 @@ Proof.
       { intros k Hk. rewrite HMst. destruct (Nat.eqb_spec k i); [congruence|].
         destruct (HMf k) as (_&_&_&_&_&Hq&_). unfold qview_eq in Hq. destruct Hq as (->&_). auto. }
       split; [discriminate|].
-      intros _. unfold ch, changed_of in Ech. destruct cm; [|discriminate].
-      unfold GraphInvariant.cur, cache_val. rewrite Hdi.
-      destruct (cache (getn se i)); [|discriminate].
-      apply negb_false_iff in Ech. apply Z.eqb_eq in Ech. auto. }
+      intros _. unfold ch, changed_of in Ech. destruct cm; [|discriminate|].
+      + apply eqv_eq. unfold GraphInvariant.cur, cache_val. rewrite Hdi.
+        destruct (cache (getn se i)); [|discriminate].
+        apply negb_false_iff in Ech. apply Z.eqb_eq in Ech. auto.
+      + unfold eqv, GraphInvariant.cur, cache_val. rewrite Hdi.
+        destruct (cache (getn se i)); [|discriminate].
+        apply negb_false_iff in Ech. apply Bool.eqb_prop in Ech. exact Ech. }
   destruct Hfin as ((Fl & Fe & Fh & Fn & FQ) & Ff & Fca & Fsi & Fle & Fst & Fcur & Fbl & Fsince & Forigin & Fdirty & Fsame).
   assert (Frl : forall k, rlog (getn s' k) = rlog (getn se k)) by (intros k; apply Ff).
   assert (Fsr : forall k, srcs (getn s' k) = srcs (getn se k)) by (intros k; apply Ff).
@@ -563,7 +567,7 @@ Proof.
               ** destruct (obs_is c k) eqn:Eo; auto. exfalso. apply Hk.
                  unfold obs_is in Eo. destruct (obs_of c) as [o|] eqn:Eoc; [|discriminate].
                  apply Nat.eqb_eq in Eo. subst. apply Hobs; auto.
-           ++ rewrite <- Hcx. symmetry. apply Fsame; auto.
+           ++ eapply eqv_trans; [apply eqv_sym; apply Fsame; auto|exact Hcx].
         -- intros Hn x w Hx Hmx. rewrite Frl in Hx. apply Fclean; auto.
            apply (R4 (Hncl_mono k Hki Hn) x w Hx Hmx).
         -- intros Hw. rewrite Fsince.
